@@ -221,6 +221,11 @@ def body_chroma(case):
         # two chromatic vertices that nearly coincide (an almost achromatic source next to the baseline's chromaticity): a hull
         # that is full-dimensional by 1e-8 is not resolvable by any tolerance-based test (as for the explicit clouds)
         return labs + ["nearly-coincident-chromatic-vertices-skipped"]
+    sv_ = np.linalg.svd(Ph - Ph.mean(0), compute_uv=False)
+    if not full and len(sv_) >= sv.m - 1 and sv_[sv.m - 2] > 1e-15 * sv_[0] and sv.n + (1 if np.any(basep != 0) else 0) >= sv.m:
+        # flat only up to rounding (two receptors whose captures agree to 1e-12: a chromatic gamut of thickness 1e-13), not by
+        # construction (fewer spanning points than dimensions): the same unresolvable class as the nearly coincident vertices
+        return labs + ["numerically-flat-chromatic-gamut-skipped"]
     for r, b, g in zip(case["rows"], B, got):
         bh = b / np.abs(b).sum()
         t = hull_weight_margin(Ph, bh)
